@@ -172,7 +172,15 @@ def make_boundary(fem, fc, spec, name):
                 value = value.reshape(rows, ncomp)
                 if value_spec["seed"] % 3 == 2:
                     value = np.asfortranarray(value)
-    b = fem.Boundary(f, name=name, value=value, **kw)
+    if spec["mask"] is not None and spec["mask"]["seed"] % 2 == 0:
+        # documented re-use: the boundary is created with another selection of the same kind, the final one is handed to
+        # apply_mask() afterwards (dof, points and mask must follow)
+        final = kw["mask"]
+        kw["mask"] = np.random.default_rng(spec["mask"]["seed"] + 1).uniform(size=np.shape(final)) < 0.5
+        b = fem.Boundary(f, name=name, value=value, **kw)
+        b.apply_mask(final)
+    else:
+        b = fem.Boundary(f, name=name, value=value, **kw)
     ldof = np.arange(npts * dim).reshape(npts, dim)[dmask]
     return b, dict(field=spec["field"] % len(fc.fields), ldof=ldof, vals=vals, dmask=dmask)
 
@@ -194,6 +202,7 @@ def part_check(kind, case, rec):
         # Boundary attributes
         rec.require("boundary.dof", np.array_equal(np.sort(b.dof), np.sort(m["ldof"])), [len(b.dof), len(m["ldof"])])
         rec.require("boundary.points", np.array_equal(b.points, np.where(m["dmask"].any(1))[0]))
+        rec.require("boundary.mask", np.array_equal(np.asarray(b.mask, bool), m["dmask"]))
     dof0, dof1 = fem.dof.partition(fc, bounds)
     # model of dof0
     owners = {}
